@@ -988,6 +988,13 @@ func FuzzC11(f *testing.F) {
 			if o, err := c.newJID(r, d, l); err == nil { // the parts swapped round
 				c.checkPair("Parse(input)", base, "New(resource, domain, local)", o)
 			}
+			// a history over the same material: chains and siblings, every
+			// value re-read after every step
+			runScript(t, fmt.Sprintf("Parse(%q)", s), base, []opSpec{
+				{kind: opBare, target: 0}, {kind: opWithResource, target: 1, arg: s[i:k]}, {kind: opWithResource, target: 1, arg: r},
+				{kind: opDomain, target: 0}, {kind: opWithLocal, target: int(y), arg: s[:i]}, {kind: opWithResource, target: int(x), arg: l},
+				{kind: opWithResource, target: int(x), arg: s[k:]}, {kind: opWithDomain, target: int(y), arg: d},
+			})
 		}
 	})
 }
